@@ -135,7 +135,8 @@ def edit_add_import_table(I, P, st, mref, spec):
     return out
 
 
-def scenarios(tier):
+def scenarios(tier, seed=0):
+    from obligations import gen
     L = []
     for v in (0, 1, 2):
         L.append(('full-module/variant%d' % v, scen.full_module(v), ('emit',), None))
@@ -147,6 +148,9 @@ def scenarios(tier):
     L.append(('customs', c12.customs_spec('full'), ('gc', 'emit', 'emit'), None))
     L.append(('edit/add-import-table', scen.full_module(0), ('emit',), edit_add_import_table))
     L.append(('edit/add-import-table+gc', scen.full_module(0), ('gc', 'emit'), edit_add_import_table))
+    for name, sp in gen.generated(tier, seed):
+        L.append((name, sp, ('emit',), None))
+        L.append((name + '+gc', sp, ('gc', 'emit'), None))
     return L
 
 
@@ -213,10 +217,11 @@ def run(tier, seed, only=None):
     timeout_ms = 60000
     table = witness.load_table()
 
-    items = [(name, spec, steps, edit, table, timeout_ms) for name, spec, steps, edit in scenarios(tier) if not only or name in only]
+    items = [(name, spec, steps, edit, table, timeout_ms) for name, spec, steps, edit in scenarios(tier, seed) if not only or name in only]
     pc.run_parallel(ctx, report, run_scenario, items)
     report.queries += len(report.obligations)
-    report.bounds = {'scenarios': 'three full-module variants x {emit, gc+emit}; four GC descriptions x {gc+emit, emit}; named module + gc; custom sections + gc + two emits; add_import_table after parse x {emit, gc+emit}; the replace_* edits are C18, builder-made functions C15, skeleton bodies C01 (each of those also reports panics)'}
+    from obligations import gen
+    report.bounds = {'generated': gen.bounds_text(tier, len(gen.generated(tier, seed))) + ' x {emit, gc+emit}', 'scenarios': 'three full-module variants x {emit, gc+emit}; four GC descriptions x {gc+emit, emit}; named module + gc; custom sections + gc + two emits; add_import_table after parse x {emit, gc+emit}; the replace_* edits are C18, builder-made functions C15, skeleton bodies C01 (each of those also reports panics)'}
     report.assumptions = ['"validates" is decided for index spaces and section consistency by a reference checker; operand-stack typing is left to the real validator in native replay', 'DWARF emission is outside (gimli not encoded)']
     report.samples = [o.as_json() for o in report.obligations[:3]]
     return report, ctx
